@@ -10,15 +10,15 @@ VERIF = os.path.dirname(os.path.dirname(os.path.abspath(__file__)))
 # pid -> (category, technique, level text, level note, design ref)
 CHECKS = {
     "C01": ("exploration", "boundary-history runtime monitor: simulated device state vs state assigned through public setters (apply) and vs attributes of a fresh second client (refresh); register interval check on concurrent histories",
-            "Every value of every settable field, boundary device ids, both protocol versions, bytes/hex credentials, five segmentation classes of the reply stream, 0..3 unsolicited/duplicate frames before/after the reply, display toggle; concurrent sub-workload with 2..4 clients and random latencies checked against the device's version timeline.",
+            "Every value of every settable field, boundary device ids, both protocol versions, bytes/hex credentials, five segmentation classes of the reply stream, 0..3 unsolicited/duplicate frames before/after the reply, display toggle; re-apply histories with a second controller; concurrent sub-workload with 2..4 clients, random latencies, pushed change reports and segment coalescing, checked against the device's version timeline.",
             "One recorded known finding (V2 reply packet split across TCP segments) is keyed by mechanism (version 2 and a cut inside a packet) and only suppresses the refresh half of such cases.", "DESIGN.md section 2 C01"),
     "C02": ("exploration", "differential runtime monitor: real codec vs independent reference codec, exhaustive lengths + seeded random",
             "Every frame length 0..255 x boundary device ids enumerated in both directions plus seeded random frames/ids/instants and "
             "LAN.send on a simulated V2 connection; held-on-observed, not a proof.",
             "Trusts mv/ref/v2.py (independent V2 implementation) and the AES block primitive (cross-checked at setup).", "DESIGN.md section 2 C02"),
     "C03": ("fault_enumeration", "fault enumeration with an outcome-class runtime oracle on the real decoder (all bit flips, truncations, byte substitutions)",
-            "Every single-bit flip and every truncation of authentic packets for every frame length 0..255, byte substitutions (all 255 values "
-            "at every position in the thorough tier), random multi-byte corruptions, and a sample through LAN.send; the only accepted outcome is ProtocolError.",
+            "Every single-bit flip and every truncation of authentic packets for every frame length 0..255, all 255 values of each marker/length byte and a 16-bit length catalogue, byte substitutions (all 255 values "
+            "at every position in the thorough tier), random multi-byte corruptions, the authentic packet accepted before and between the altered copies, and wire cases on V2 and inside valid V3 responses; the only accepted outcome is ProtocolError.",
             "Trusts mv/ref/v2.py to build authentic packets and to recognise the (never observed) corruption that is still authentic.", "DESIGN.md section 2 C03"),
     "C04": ("exploration", "delivered-prefix runtime oracle on the real V3 protocol object under enumerated and random TCP segmentations; virtual-time promptness check through LAN.send",
             "All segmentations with <=2 (quick) / <=3 (thorough) cut points of ~90 generated streams of 1..4 packets incl. marker-bearing payloads and garbage prefixes, "
@@ -26,10 +26,10 @@ CHECKS = {
             "Trusts mv/ref/v3.py framing and the in-memory transport's copy of asyncio's data_received semantics.", "DESIGN.md section 2 C04"),
     "C05": ("fault_enumeration", "differential runtime monitor vs independent V3 codec + exhaustive single-bit tamper enumeration (direct and through LAN.send)",
             "Payload lengths 0..300 in both directions, counters 0..4095 (thorough), random keys, wire round trips on an authenticated simulated session, "
-            "and every single-bit flip of a response for every padding residue.",
+            "session sequences of varying length through one protocol instance (direct and via write()), and every single-bit flip of a response for every padding residue with the genuine response accepted before and between.",
             "Trusts mv/ref/v3.py; marker/size bit flips at the LAN.send level may end in TimeoutError (framing never completes).", "DESIGN.md section 2 C05"),
     "C10": ("exploration", "differential runtime monitor: 0x40 bodies captured by the simulated device decoded with a vendor-layout reference decoder; run-wide injectivity map",
-            "Every value of every settable field, 62 setpoints x 6 modes, fan bytes 0..127, all 768 combinations of flags sharing a byte, pairwise array, seeded random states; all through AirConditioner.apply() on the real stack.",
+            "Every value of every settable field, 62 setpoints x 6 modes, fan bytes 0..127, all 768 combinations of flags sharing a byte, pairwise array, seeded random states, with/without a capability profile queried first, with property setters pending, and apply() overlapping a refresh(); all through AirConditioner.apply() on the real stack.",
             "Trusts mv/ref/acstate.decode_0x40 (transliteration of the vendor Lua, line references kept) and the oracle choices listed in DESIGN.md C10 'S'.", "DESIGN.md section 2 C10"),
     "C11": ("exploration", "differential runtime monitor: attributes of a fresh AirConditioner after refresh() vs independent decode of the raw 0xC0 body the simulated device reported",
             "256 x 10 temperature/tenths per sensor per unit, 32 x 32 setpoint codes, all 256 values of each flag byte, fan 0..127, lengths 16..40 x both check styles, random bodies.",
@@ -44,7 +44,7 @@ CHECKS = {
             "All body/raw truncation lengths of every response kind, count/size bytes 0..255, records pointing past the end, every property/capability value, ids 0..255 x 6 frame types, random bodies, mixes of good and bad frames incl. unsolicited 0xB5 frames around a capability reply.",
             "Frames are delivered in authentic V2 packets; transport-level malformation belongs to C09.", "DESIGN.md section 2 C14"),
     "C06": ("fault_enumeration", "fault enumeration of the handshake reply against the real client + wire-log / stored-credential / follow-up-exchange oracles on a simulated V3 device",
-            "Per random (token,key,nonce) triple: all 512 proof bit flips, reply lengths 0..80, all type nibbles, error/encrypted packets, foreign-key proofs, header/counter bit flips; genuine replies verified by an encrypted exchange the device accepts.",
+            "Per random (token,key,nonce) triple: all 512 proof bit flips, reply lengths 0..80, all type nibbles, error/encrypted packets, foreign-key proofs, header/counter bit flips, late genuine replies, re-authentication histories on live / expired sessions; genuine replies verified by an encrypted exchange the device accepts.",
             "Trusts mv/ref/v3.py (proof = AES-CBC_K(nonce) || SHA256(nonce), session key nonce XOR K). Failed re-authentication on a live authenticated connection is not judged.", "DESIGN.md section 2 C06"),
     "C09": ("exploration", "containment monitor: allowed-exception-set oracle per entry point under a byte-level adversarial simulated peer (grammar-aware mutation of V2/V3 traffic)",
             "Structured catalogues (length-field boundaries, signed garbage ciphertext, type nibbles x phases, pad nibbles, sizes, truncations) plus seeded random mutation, across LAN.send, LAN.authenticate, Device.authenticate, Device._send_command and AirConditioner.refresh.",
@@ -56,7 +56,7 @@ CHECKS = {
             "All event histories of depth <= 3 (quick) / <= 4 (thorough) over an 11-letter alphabet with 4 connection-lifetime settings, directed periodic-use histories, random histories to depth 25, and one long single-connection session (> 4096 / > 65536 packets).",
             "Histories start with a successful authenticate; 'bad credentials' = token the device rejects; instants offset so no exchange starts exactly on an expiry boundary.", "DESIGN.md section 2 C07"),
     "C08": ("fault_enumeration", "virtual-time reference retry model vs transmissions counted by the simulated device; fault-sequence enumeration with a recovery oracle at LAN and device level",
-            "All answer-delay patterns for retry budgets 1..4 on V2 and V3, every single fault and ordered pair (thorough: triple) of faults across connect/handshake/data phases, cancellation instants on a 0.1 s grid.",
+            "All answer-delay patterns for retry budgets 1..4 on V2 and V3, every single fault and ordered pair (thorough: triple) of faults across connect/handshake/data phases with connection lifetime unset/90 s/1 h, cancellation instants on a 0.1 s grid.",
             "Timing verdicts on virtual time only; scripted delays never coincide with a timeout instant.", "DESIGN.md section 2 C08"),
     "C16": ("exploration", "client/device reference model over setter/apply/refresh histories: 0xB0 bodies captured by the simulated device vs changed-set, advertised id and vendor value encoding; read-back and breeze-exclusivity invariants",
             "All histories of depth <= 2 (quick) / <= 3 (thorough) over a per-profile alphabet for 12 capability profiles (breeze-control vs legacy both/away/breezeless/none, 2-/5-level/no rate select, iECO, swing angles, self clean), plus random histories up to length 20 over all enum values.",
